@@ -243,6 +243,9 @@ class MibCompiler(object):
             # has a source failed on this name (not: on a module of that name)
             sourceFailed = False
 
+            # has a source answered this name with a file that holds modules
+            sourceAnswered = False
+
             # a name that has been looked up as a file name goes on, as a
             # module name, where that search ended
             for source in self._sources[sourcesAsked.get(mibname, 0):]:
@@ -275,6 +278,8 @@ class MibCompiler(object):
                     mibTrees = self._parser.parse(fileData)
 
                     parsedFiles.add(fileKey)
+
+                    sourceAnswered = bool(mibTrees) or sourceAnswered
 
                     if not mibTrees:
                         # nothing but white space or comments in there:
@@ -361,6 +366,11 @@ class MibCompiler(object):
                         # file, a later source may have a sound copy
                         continue
 
+                    if requested and not [x for x in mibTrees if x[0] in parsedMibs]:
+                        # nothing sound in the file asked for, under whatever
+                        # spelling: a later source may do better
+                        continue
+
                     if not requested and mibname not in parsedMibs:
                         # a name taken from an IMPORTS clause is a module
                         # name; this file holds modules called differently
@@ -398,9 +408,9 @@ class MibCompiler(object):
                     sourceFailed = True
 
             else:
-                if mibname in parsedMibs:
-                    # no file of that name, but the module is known from
-                    # another file
+                if mibname in parsedMibs or requested and sourceAnswered:
+                    # a file name: the modules found under it, here or in
+                    # another file, carry the statuses
                     continue
 
                 exc = error.PySmiError('MIB source %s not found' % mibname)
